@@ -9,6 +9,10 @@ package main
 // every concrete request back into its class (c16_classify.go - trusted glue), performs it in-process
 // through gin's Engine.ServeHTTP and projects the response.
 //
+// Stores: five shapes (c16Shapes), the whole grammar on each, served in parallel; the concrete request starts with
+// "@<shape>" for every shape but base.  Requests with numbers >= 10^6 or more than 64 KiB are served by a child
+// process (`harness c16child <dir> <shape>`) under RLIMIT_AS; a dead child = observable "CRASH server-died".
+//
 // case input :  <auth> <route> k=v ... | st=<rows> ## <concrete request>
 //     the part before " ## " is what the model runs on; the part after it is the concrete request
 //     (quoted, reversible) used for replay: `harness C16 <out> --only '<input>'`.
@@ -29,7 +33,6 @@ import (
 	"os"
 	"os/exec"
 	"regexp"
-	"runtime/pprof"
 	"sort"
 	"strconv"
 	"strings"
@@ -41,6 +44,7 @@ import (
 	"github.com/bitcoin-sv/block-headers-service/config"
 	"github.com/bitcoin-sv/block-headers-service/domains"
 	"github.com/bitcoin-sv/block-headers-service/internal/chaincfg/chainhash"
+	"github.com/bitcoin-sv/block-headers-service/service"
 	"github.com/gin-gonic/gin"
 )
 
@@ -173,6 +177,7 @@ func c16Decode(s string) (*c16Req, error) {
 // c16Fix is the fixture: two stacks with identical stores.
 type c16Fix struct {
 	shape   string
+	repairs int // rows the tree under test could not add / labelled differently (written directly instead)
 	off, on *Stack
 	rows    []HeaderRow
 	hidx    map[string]int // header hash -> row index
@@ -203,6 +208,7 @@ type c16Shape struct {
 	name    string
 	parents []int
 	heavy   map[int]bool // rows (1-based position in parents + 0) mined with much more work than the others
+	states  string       // intended state of every row incl. genesis: L longest, S stale, O orphan
 	what    string
 }
 
@@ -213,16 +219,16 @@ const (
 
 func c16Shapes() []c16Shape {
 	return []c16Shape{
-		{name: "base", parents: []int{0, 1, 2, 3, 4 /*a1..a5*/, 2, 6 /*s3,s4*/, 0 /*t1*/, -1, 9 /*o1,o2*/, -2, 11 /*p1,p2*/, 4 /*e5*/},
+		{name: "base", parents: []int{0, 1, 2, 3, 4 /*a1..a5*/, 2, 6 /*s3,s4*/, 0 /*t1*/, -1, 9 /*o1,o2*/, -2, 11 /*p1,p2*/, 4 /*e5*/}, states: "LLLLLLSSSOOOOS",
 			what: "longest chain of 5, stale branch of 2 forking at height 2, stale sibling of block 1, equal-work stale sibling of the tip, two orphan chains of 2"},
-		{name: "tallstale", parents: []int{0, 1, 2 /*m1..m3 heavy*/, 0, 4, 5, 6, 7, 8 /*s1..s6 light*/}, heavy: map[int]bool{1: true, 2: true, 3: true},
+		{name: "tallstale", parents: []int{0, 1, 2 /*m1..m3 heavy*/, 0, 4, 5, 6, 7, 8 /*s1..s6 light*/}, heavy: map[int]bool{1: true, 2: true, 3: true}, states: "LLLLSSSSSS",
 			what: "longest chain of 3 heavy headers, a light stale branch of 6 from genesis: stale headers ABOVE the tip in height, below it in work"},
-		{name: "tallorphan", parents: []int{0, 1 /*m1,m2*/, -1, 3, 4, 5, 6 /*o1..o5*/},
+		{name: "tallorphan", parents: []int{0, 1 /*m1,m2*/, -1, 3, 4, 5, 6 /*o1..o5*/}, states: "LLLOOOOO",
 			what: "longest chain of 2, an orphan chain (unknown parent) of 5: orphans above the tip in height"},
 		{name: "both", parents: []int{0, 1, 2 /*m1..m3 heavy*/, 0, 4, 5, 6, 7 /*s1..s5 light*/, -1, 9, 10, 11, 12, 13, 14 /*o1..o7*/, -2 /*p1*/, 3 /*m4 heavy*/},
-			heavy: map[int]bool{1: true, 2: true, 3: true, 17: true},
+			heavy: map[int]bool{1: true, 2: true, 3: true, 17: true}, states: "LLLLSSSSSOOOOOOOOL",
 			what: "longest chain of 4 heavy headers, light stale branch of 5, orphan chain of 7, a single orphan"},
-		{name: "genesis", parents: []int{}, what: "nothing beyond genesis"},
+		{name: "genesis", parents: []int{}, states: "L", what: "nothing beyond genesis"},
 	}
 }
 
@@ -239,18 +245,18 @@ func c16ShapeByName(n string) (c16Shape, bool) {
 }
 
 // c16Build adds the headers of a shape to a stack (deterministic: the same hashes in every process).
-func c16Build(s *Stack, sh c16Shape) error {
+func c16Build(s *Stack, sh c16Shape) (repairs int, err error) {
 	rows, err := s.DumpHeaders()
 	if err != nil {
-		return err
+		return repairs, err
 	}
 	if len(rows) != 1 {
-		return fmt.Errorf("expected a fresh store with genesis only, got %d rows", len(rows))
+		return repairs, fmt.Errorf("expected a fresh store with genesis only, got %d rows", len(rows))
 	}
 	hashes := []chainhash.Hash{}
 	gh, err := chainhash.NewHashFromStr(rows[0].Hash)
 	if err != nil {
-		return err
+		return repairs, err
 	}
 	hashes = append(hashes, *gh)
 	for i, p := range sh.parents {
@@ -277,9 +283,44 @@ func c16Build(s *Stack, sh c16Shape) error {
 			h, aerr = s.Services.Chains.Add(src)
 		}()
 		if aerr != nil || h == nil {
-			return fmt.Errorf("building the store %s: header %d: %v", sh.name, i+1, aerr)
+			// The store shape is a PRECONDITION of this check, not its subject (Add belongs to C01): when the tree under
+			// test cannot add the header, the row is written through the repository with the intended state.
+			repairs++
+			hash := service.DefaultBlockHasher().BlockHash(&src)
+			if ex, _ := s.Repo.Headers.GetHeaderByHash(chainhash.Hash(hash).String()); ex == nil {
+				ph, _ := s.Repo.Headers.GetHeaderByHash(prev.String())
+				if ph == nil {
+					ph = domains.NewOrphanPreviousBlockHeader()
+				}
+				bh := domains.CreateHeader(&hash, &src, ph)
+				if err := s.Repo.Headers.AddHeaderToDatabase(bh); err != nil {
+					return repairs, fmt.Errorf("building the store %s: header %d: Add: %v; direct insert: %v", sh.name, i+1, aerr, err)
+				}
+			}
+			hashes = append(hashes, chainhash.Hash(hash))
+			continue
 		}
 		hashes = append(hashes, h.Hash)
+	}
+	// the intended states (forced when the tree under test labelled a row differently)
+	names := map[byte]string{'L': "LONGEST_CHAIN", 'S': "STALE", 'O': "ORPHAN"}
+	rows, err = s.DumpHeaders()
+	if err != nil {
+		return repairs, err
+	}
+	if len(rows) != len(sh.states) {
+		return repairs, fmt.Errorf("building the store %s: %d rows, expected %d", sh.name, len(rows), len(sh.states))
+	}
+	for i, r := range rows {
+		if r.Hash != hashes[i].String() {
+			return repairs, fmt.Errorf("building the store %s: row %d is not the header added %d-th", sh.name, i, i)
+		}
+		if want := names[sh.states[i]]; r.State != want {
+			repairs++
+			if _, err := s.DB.Exec(`UPDATE headers SET header_state = ? WHERE hash = ?`, want, r.Hash); err != nil {
+				return repairs, err
+			}
+		}
 	}
 	// baseline tokens / webhooks, then backup copies used to restore after state-changing requests
 	stmts := []string{
@@ -291,10 +332,10 @@ func c16Build(s *Stack, sh c16Shape) error {
 	}
 	for _, q := range stmts {
 		if _, err := s.DB.Exec(q); err != nil {
-			return fmt.Errorf("%s: %w", q, err)
+			return repairs, fmt.Errorf("%s: %w", q, err)
 		}
 	}
-	return nil
+	return repairs, nil
 }
 
 func (s *Stack) c16Restore(table string) {
@@ -313,9 +354,11 @@ func c16NewFix(c *Ctx, sh c16Shape) (*c16Fix, error) {
 		return nil, err
 	}
 	for _, s := range []*Stack{f.off, f.on} {
-		if err := c16Build(s, sh); err != nil {
+		n, err := c16Build(s, sh)
+		if err != nil {
 			return nil, err
 		}
+		f.repairs += n
 	}
 	rows, err := f.off.DumpHeaders()
 	if err != nil {
@@ -764,12 +807,6 @@ func runC16(c *Ctx) error {
 	if plim > 0 {
 		_ = syscall.Setrlimit(syscall.RLIMIT_AS, &syscall.Rlimit{Cur: plim, Max: plim})
 	}
-	if pf := os.Getenv("VERIF_C16_PROF"); pf != "" {
-		if fh, err := os.Create(pf); err == nil {
-			_ = pprof.StartCPUProfile(fh)
-			defer pprof.StopCPUProfile()
-		}
-	}
 	if strings.HasPrefix(c.Only, "errcode ") {
 		c16ErrCase(c, strings.TrimPrefix(c.Only, "errcode "))
 		return nil
@@ -916,7 +953,7 @@ func runC16(c *Ctx) error {
 			return errs[si]
 		}
 		emitAll(results[si])
-		c.Meta("store:"+shapes[si].name, shapes[si].what+"; "+fixes[si].env)
+		c.Meta("store:"+shapes[si].name, fmt.Sprintf("%s; %s; rows written directly because Chains.Add of the tree under test failed or labelled them differently: %d", shapes[si].what, fixes[si].env, fixes[si].repairs))
 		fmt.Fprintf(os.Stderr, "c16: store %s: %d jobs served in %.1fs (fixtures+generation %.1fs)\n", shapes[si].name, len(jobs[si]), took[si].Seconds(), tGen.Seconds())
 	}
 	names := []string{}
